@@ -18,7 +18,7 @@ func init() {
 		Prop:   "C17",
 		Run:    run,
 		Replay: replay,
-		Rule: "E1 over (schema x token path): 6 schemas built by the real compiler (presence and non-presence containers, list with typed key, leaves of several types, empty leaf, leaf-list, nested choice/case) x every token path up to the length bound over an alphabet of every node name of the schema, valid and invalid values per type, a foreign name and the empty string, x AllowIncompletePaths in {false,true}; ModelSet.Validate must accept iff a reference walker over the generator's own schema description accepts, and for a rejected path the error must mention the first offending element (or, for an incomplete path, the element it ends on). " +
+		Rule: "E1 over (schema x token path): 6 schemas built by the real compiler (presence and non-presence containers, list with typed key, leaves of several types, empty leaf, leaf-list, nested choice/case) x every token path up to the length bound over an alphabet of every node name of the schema, valid and invalid values per type, a foreign name and the empty string, x AllowIncompletePaths (every path is validated with incomplete paths allowed, then strictly, then allowed again, on the same compiled schema); ModelSet.Validate must accept iff a reference walker over the generator's own schema description accepts, and for a rejected path the error must mention the first offending element (or, for an incomplete path, the element it ends on). " +
 			"Subtrees below a prefix both sides reject for its last token are not extended (the walk is left-to-right and prefix-determined; pruned subtrees are counted). Non-trivial = the path has >= 2 tokens.",
 		Bound: map[string]string{
 			"quick":    "paths of <= 5 tokens (no pruning below 4 tokens)",
@@ -196,6 +196,7 @@ type rec struct {
 	Schema     int      `json:"schema"`
 	Path       []string `json:"path"`
 	Incomplete bool     `json:"incomplete"`
+	Prior      []bool   `json:"prior,omitempty"` // modes in which the same path was validated before on this schema
 }
 
 var compiled = map[int]schema.ModelSet{}
@@ -310,7 +311,9 @@ func run(c *engine.Ctx) {
 		}
 		sort.Strings(toks)
 		toks = append(toks, "x", "7", "256", "true", "green", "", "nosuch")
-		for _, inc := range []bool{false, true} {
+		// every path is validated three times on the same compiled schema: incomplete paths
+		// allowed, strict, allowed again (a verdict must not depend on earlier validations)
+		{
 			var rec func(p []string)
 			recf := func(p []string) {}
 			_ = recf
@@ -318,31 +321,34 @@ func run(c *engine.Ctx) {
 				if c.Expired() {
 					return
 				}
-				owned := len(p) < 2 || c.Owns(fmt.Sprintf("%d:%v:%q", si, inc, p[:2]))
+				owned := len(p) < 2 || c.Owns(fmt.Sprintf("%d:%q", si, p[:2]))
 				if !owned {
 					return
 				}
 				prune := false
-				if len(p) >= 2 || c.Shard == 0 {
-					r := recOf(si, p, inc)
-					if c.Case(fmt.Sprintf("%d:%v:%q", si, inc, p)) {
-						c.Add("states", 1)
-						if len(p) >= 2 {
-							c.Nontrivial()
-						}
-						vs, implOK, refOK := check(r)
-						c.Outcome(fmt.Sprintf("ref=%v:impl=%v", refOK, implOK))
-						for _, v := range vs {
-							c.Report(v)
-						}
-						// dead prefix: both reject p and also reject it when incomplete paths are allowed
-						if !implOK && !refOK && len(p) >= noPrune {
-							r2 := r
-							r2.Incomplete = true
-							refOK2, _ := walkRef(schemas()[si], p, true)
-							ms, _ := modelFor(si)
-							if ms != nil && !refOK2 && ms.Validate(ctxT{true}, nil, append([]string{}, p...)) != nil {
-								prune = true
+				for round, inc := range []bool{true, false, true} {
+					if len(p) >= 2 || c.Shard == 0 {
+						r := recOf(si, p, inc)
+						r.Prior = []bool{true, false, true}[:round]
+						if c.Case(fmt.Sprintf("%d:%v:%d:%q", si, inc, round, p)) {
+							c.Add("states", 1)
+							if len(p) >= 2 {
+								c.Nontrivial()
+							}
+							vs, implOK, refOK := check(r)
+							c.Outcome(fmt.Sprintf("ref=%v:impl=%v", refOK, implOK))
+							for _, v := range vs {
+								c.Report(v)
+							}
+							// dead prefix: both reject p and also reject it when incomplete paths are allowed
+							if !inc && !implOK && !refOK && len(p) >= noPrune {
+								r2 := r
+								r2.Incomplete = true
+								refOK2, _ := walkRef(schemas()[si], p, true)
+								ms, _ := modelFor(si)
+								if ms != nil && !refOK2 && ms.Validate(ctxT{true}, nil, append([]string{}, p...)) != nil {
+									prune = true
+								}
 							}
 						}
 					}
@@ -374,6 +380,14 @@ func replay(c *engine.Ctx, sub string, raw json.RawMessage) []engine.Violation {
 	var r rec
 	if json.Unmarshal(raw, &r) != nil || r.Schema < 0 || r.Schema >= len(schemas()) {
 		return []engine.Violation{{Key: "harness-bad-replay-file"}}
+	}
+	if ms, _ := modelFor(r.Schema); ms != nil {
+		for _, inc := range r.Prior { // the validations of this path that came before on the same schema
+			func() {
+				defer func() { recover() }()
+				ms.Validate(ctxT{inc}, nil, append([]string{}, r.Path...))
+			}()
+		}
 	}
 	vs, _, _ := check(r)
 	return vs
